@@ -1,6 +1,6 @@
 #!/bin/sh
 # tools/run_all_quick.sh [tier]: every check in turn against /repo, evidence rewritten; summary on stdout
-cd /verif
+cd "$(dirname "$0")/.."
 tier="${1:-quick}"
 for i in $(seq -w 1 20); do
   s=$(date +%s); out=$(./check C$i --tier $tier 2>&1); code=$?
